@@ -68,6 +68,15 @@ def c03_1(c: Ctx) -> None:
     for u, call in sets:
         if u.key not in owners:
             c.fail(u, f'sets the completion signal: {U(call)}', f'the completion signal is set outside {MARK} (in {u.qualname}), bypassing the all-handlers/all-children test', node=call)
+    # who may ask for the evaluation: an event with no results yet counts as complete ("no handlers matched"), so the evaluation is only meaningful once the
+    # event has been processed by a bus — i.e. from process_event (the event itself and its ancestors) and from _execute_handlers (the no-handler shortcut)
+    eval_owners = c.cg.owners_closure({c.unit(SVC, 'EventBus.process_event').key, c.unit(SVC, 'EventBus._execute_handlers').key, owner.key})
+    for cu, ccall in c.cg.callers(owner):
+        if cu.key in eval_owners:
+            c.ok(where(cu, ccall), f'{MARK} called from {cu.qualname} (after processing)')
+        else:
+            c.fail(cu, f'calls {MARK}: {q.stmt_text(q.stmt_of(ccall), 70)}', f'completion is evaluated from {cu.qualname}, outside event processing: an event that is still queued (or was just withdrawn) has no results and is '
+                   'signalled complete — and is processed afterwards all the same, or its ancestors are never re-evaluated', node=ccall)
     own_sets = [call for u, call in sets if u.key == owner.key]
     g = c.cfg(owner)
     self_ = owner.params()[0]
